@@ -19,7 +19,7 @@ claimed = {
    tech="contract-based deductive verification: region contracts + loop invariants, own VC generator over go/ssa + z3/cvc5",
    ref="DESIGN.md section 4 (C07)"),
  "C03": dict(
-   text="Deductive proof, for every stream valuation (atoms are interpreted through uninterpreted functions for tag state and variable values), that negation of the atoms under contract is exact: TagCondition.invert accepts exactly the complementary tag states, HostCondition.invert flips the match and keeps address and masks, NumberCondition.invert satisfies (Number' + sum) >= 0 iff not (Number + sum) >= 0 over the integers (recursive sum as a spec function with induction lemmas, multiplication uninterpreted with the ring law used), the impossible condition negates to 'no condition', and the negation of the empty conjunction (always true) is the impossible condition rather than 'no condition'; plus the rule-site assertion that the number simplification divides the constant exactly (the common factor it divides by also divides the constant). Frames: the sequence operator then() and the set union Or() never write their operands' element lists (append is modelled with both outcomes, in place and fresh), and Or() returns exactly the conjunctions of both operands in order. The other clean* rewrites, And(), time/flag/data atoms and the translation from text are not under contract yet and are not decided by this check.",
+   text="Deductive proof, for every stream valuation (atoms are interpreted through uninterpreted functions for tag state and variable values), that negation of the atoms under contract is exact: TagCondition.invert accepts exactly the complementary tag states, HostCondition.invert flips the match and keeps address and masks, NumberCondition.invert satisfies (Number' + sum) >= 0 iff not (Number + sum) >= 0 over the integers (recursive sum as a spec function with induction lemmas, multiplication uninterpreted with the ring law used), the impossible condition negates to 'no condition', and the negation of the empty conjunction (always true) is the impossible condition rather than 'no condition'; plus the rule-site assertion that the number simplification divides the constant exactly (the common factor it divides by also divides the constant). Translation of host masks: for every /n suffix the IPv4 and IPv6 masks are flipped in exactly the first n (n > 0) or last -n (n < 0; IPv4 only when -n <= 32) bit positions - loop invariants over all 32 / 128 bit positions in bit-vector arithmetic, and for a single suffix the final masks equal that specification. Frames: the sequence operator then() and the set union Or() never write their operands' element lists (append is modelled with both outcomes, in place and fresh), and Or() returns exactly the conjunctions of both operands in order. The other clean* rewrites, And(), time/flag/data atoms and the translation from text are not under contract yet and are not decided by this check.",
    note="Assumed: |Number| and factors below 2^62 (no wrap-around on negation), tag state is one of four values; nmul law nmul(-a,b) = -nmul(a,b) (a true law of multiplication, listed as axiom). Partial claim: see functions_under_contract in the evidence.",
    tech="contract-based deductive verification: semantic spec functions + induction lemmas, own VC generator over go/ssa + z3/cvc5",
    ref="DESIGN.md section 4 (C03)"),
@@ -47,17 +47,17 @@ claimed = {
    tech="contract-based deductive verification: rule-site assertions and ghost call logs (own VC generator over go/ssa + z3/cvc5); bounded differential stand-in for tag searches",
    ref="DESIGN.md section 4 (C06)"),
  "C10": dict(
-   text="Deductive proof of the sequential kernel of a view: (1) the per-stream callback of View.AllStreams invokes the handler for a stored version exactly when no newer index file of the view contains that stream id (loop invariant + ghost log of handler calls), so every visible id is enumerated once, in its newest version; (2) View.Stream returns the version from the newest index containing the id, or nothing if none contains it; (3) replacing a merged run keeps every index before and after the run in order (including files appended while the merge ran); (4) lock/release change nothing but the reference-count table. Completeness with respect to 'reported processed', stability of a view while other jobs run and the hand-off of references across goroutines are not function-contract properties and are not decided.",
+   text="Deductive proof of the sequential kernel of a view: (1) the per-stream callback of View.AllStreams invokes the handler for a stored version exactly when no newer index file of the view contains that stream id (loop invariant + ghost log of handler calls), so every visible id is enumerated once, in its newest version; (2) View.Stream returns the version from the newest index containing the id, or nothing if none contains it; (3) replacing a merged run keeps every index before and after the run in order (including files appended while the merge ran); (4) lock/release change nothing but the reference-count table. BOUNDED (stand-in, not counted as proved): stability of a view over its lifetime while imports, tag edits and mark changes continue (view-stability stand-in: live views are asked again after every manager call of generated histories). Completeness with respect to 'reported processed' and the hand-off of references across goroutines are not decided.",
    note="Assumed: the index package's readers (StreamIDs, StreamByID, Stream.ID) relate to the abstract predicate contains(index, id) as stated in their assumed contracts; single-goroutine confinement of manager state (C20's subject); Close/Remove do not touch manager state; run-time checks in View.Stream and the merge completion closure are assumed to pass (nosafety).",
    tech="contract-based deductive verification: handler-preserves-invariant contracts on closures, ghost call logs, own VC generator over go/ssa + z3/cvc5",
    ref="DESIGN.md section 4 (C10)"),
  "C14": dict(
-   text="Deductive proof of totality facts on the real parser code: the value and term capture functions and the host-mask parser are free of index/slice panics for every token text the grammar can hand them (all inputs, with the token shapes as preconditions) and their loops terminate; every loop of the number-filter and flag-filter simplification (cleanNumberConditions, cleanFlagConditions, including the common-factor search and the 16-bit mask enumerations) terminates, proved with a variant per loop; the sort comparator of tag conditions equals a spec function that is proved to be a strict total order, so the normal form of tag conditions does not depend on map iteration order. Functions of the parser not listed under functions_under_contract in the evidence are not decided by this check; promptness is a complexity claim and is not decided.",
+   text="Deductive proof of totality facts on the real parser code: the value and term capture functions and the host-mask parser are free of index/slice panics for every token text the grammar can hand them (all inputs, with the token shapes as preconditions) and their loops terminate; every loop of the number-filter and flag-filter simplification (cleanNumberConditions, cleanFlagConditions, including the common-factor search and the 16-bit mask enumerations) terminates, proved with a variant per loop; the sort comparator of tag conditions equals a spec function that is proved to be a strict total order, so the normal form of tag conditions does not depend on map iteration order. The host mask parser is also proved functionally (see C03). Functions of the parser not listed under functions_under_contract in the evidence are not decided by this check; promptness is a complexity claim and is not decided.",
    note="Assumed: participle's lexer/parser is total and delivers tokens matching its patterns (token shapes are preconditions); strings.HasPrefix/HasSuffix/strconv.ParseInt contracts; in the two large simplification functions run-time checks are assumed to pass (nosafety) and each loop is verified from its invariant alone; loop 3 of cleanNumberConditions assumes no factor equals MinInt64.",
    tech="contract-based deductive verification: no-panic sweep + loop variants, own VC generator over go/ssa + z3/cvc5",
    ref="DESIGN.md section 4 (C14)"),
  "C15": dict(
-   text="Deductive proof of the varint codec on the real functions: writeVarInt emits exactly the base-128 encoding of its argument (1..10 bytes, proved by complete unrolling with the unwinding obligation), readVarInt returns the value decoded from the bytes it consumed, stops at the first byte without continuation bit, reports the consumed length and fails only when the underlying reader fails (ghost log of ReadByte results); ten round-trip lemmas (one per encoded length) prove decode(encode(x)) = x as bit-vector facts over the two contracts. The cache file as a whole (varbytes/strings, records, accounting, compaction, invalidation, reopen, torn tail) is not within the verifier's reach yet; a bounded stand-in (labelled bounded, not counted as proved) drives real cache files through operation sequences against a map model.",
+   text="Deductive proof of the invalidation bookkeeping (after a record is dropped from the table the start of the free area is not behind the start of that record, so compaction never starts parsing inside a record) and of the varint codec on the real functions: writeVarInt emits exactly the base-128 encoding of its argument (1..10 bytes, proved by complete unrolling with the unwinding obligation), readVarInt returns the value decoded from the bytes it consumed, stops at the first byte without continuation bit, reports the consumed length and fails only when the underlying reader fails (ghost log of ReadByte results); ten round-trip lemmas (one per encoded length) prove decode(encode(x)) = x as bit-vector facts over the two contracts. The cache file as a whole (varbytes/strings, records, accounting, compaction, invalidation, reopen, torn tail) is not within the verifier's reach yet; a bounded stand-in (labelled bounded, not counted as proved) drives real cache files through operation sequences against a map model.",
    note="Assumed: io.ByteReader/io.Writer are modelled by ghost logs of their results; binary.Write writes the slice it is given. The stand-in is bounded (sequence length, ids, chunk lists stated in the evidence). Known findings: invalidation is not durable across reopen; empty chunks are not representable.",
    tech="contract-based deductive verification (own VC generator + z3/cvc5) for the codec; bounded stand-in for the file-level behaviour",
    ref="DESIGN.md section 4 (C15)"),
